@@ -43,3 +43,45 @@ def call(hashseed, task):
 
 def my_hashseed():
     return int(os.environ.get("PYTHONHASHSEED", "0") or 0)
+
+
+def call_fresh(hashseed, tasks):
+    """Run the tasks one after the other in a NEW interpreter that is thrown
+    away afterwards (C11: the same rewrite repeated in one process; nothing
+    an earlier run left behind in the worker can interfere)."""
+    env = dict(os.environ)
+    env["PYTHONHASHSEED"] = str(hashseed)
+    env.setdefault("PYTHONDONTWRITEBYTECODE", "1")
+    ch = subprocess.Popen(
+        [core.PYTHON, "-X", "faulthandler", os.path.join(core.VERIF_ROOT, "sim", "worker.py")],
+        stdin=subprocess.PIPE,
+        stdout=subprocess.PIPE,
+        stderr=subprocess.DEVNULL,
+        env=env,
+        text=True,
+        bufsize=1,
+        cwd=core.VERIF_ROOT,
+    )
+    out = []
+    try:
+        for i, task in enumerate(tasks):
+            task = dict(task)
+            task["id"] = i
+            ch.stdin.write(json.dumps(task, default=str) + "\n")
+            ch.stdin.flush()
+            line = ch.stdout.readline()
+            if not line:
+                raise core.HarnessError("fresh helper interpreter died")
+            ans = json.loads(line)
+            if ans["result"].get("verdict") == core.Verdict.HARNESS:
+                raise core.HarnessError("fresh helper: " + str(ans["result"].get("error")) + "\n" + str(ans["result"].get("trace")))
+            out.append(ans["result"])
+    finally:
+        try:
+            ch.stdin.write('{"op":"quit"}\n')
+            ch.stdin.flush()
+            ch.stdin.close()
+            ch.wait(timeout=5)
+        except Exception:
+            ch.kill()
+    return out
